@@ -133,9 +133,19 @@ void scen_c15_env(mt_case * c) {
 
 /* ------------------------------ (b) init / fini histories ------------------------------ */
 static volatile int racer_won[2], racer_back[2]; static int cyc_work_depth; static pthread_barrier_t race_bar;
+static int cyc_reinit; static long n_reinit;
 static int do_work_and_fini(int expectW, int * fini_rank) {
   int W = myth_get_num_workers(); gW = W;
   if (expectW > 0 && W != expectW) mt_fail("initialised with n_workers=%d but myth_get_num_workers() == %d", expectW, W);
+  if (cyc_reinit) {
+    /* the library is running: further initialisation calls, with other settings or none, are no-ops */
+    myth_globalattr_t b; myth_globalattr_init(&b);
+    myth_globalattr_set_n_workers(&b, (size_t)(cyc_reinit == 1 ? (W > 1 ? W - 1 : 2) : W + 3)); myth_globalattr_set_bind_workers(&b, 0);
+    myth_init_ex(&b); if (cyc_reinit == 2) myth_init();
+    n_reinit++;
+    int W2 = myth_get_num_workers();
+    if (W2 != W) mt_fail("a second myth_init_ex (asking for %d workers) while the library runs with %d workers changed myth_get_num_workers() to %d: initialisation is not exactly once", cyc_reinit == 1 ? (W > 1 ? W - 1 : 2) : W + 3, W, W2);
+  }
   myth_thread_t t = myth_create(node, (void *)(long)cyc_work_depth); Z0(myth_join(t, 0));
   /* block a few times so that the main thread is resumed by whichever worker finishes its child */
   for (int i = 0; i < 4; i++) { myth_thread_t c = myth_create(leaf, (void *)3L); myth_yield(); Z0(myth_join(c, 0)); }
@@ -176,6 +186,7 @@ void scen_c15_hist(mt_case * c) {
   mt_flush_early();
   for (int i = 0; i < ncyc; i++) {
     int kind = cy[i].kind, fr = 0, W = 0; cyc_work_depth = cy[i].depth; bad_rank = 0; gW = 1 << 30;
+    cyc_reinit = ((cy[i].w + cy[i].stk + i) % 3 == 0) ? 1 + ((cy[i].w >> 1) & 1) : 0;
     kinds[kind]++;
     if (kind == 0) {
       myth_globalattr_t a; myth_globalattr_init(&a);
@@ -204,6 +215,6 @@ void scen_c15_hist(mt_case * c) {
   }
   mt_stat("cycles", ncyc); mt_stat("fini_from_other_worker", fini_elsewhere);
   for (int k = 0; k < 4; k++) if (kinds[k]) mt_label((const char *[]){ "init_ex", "init_default", "implicit_init", "racing_init" }[k]);
-  if (fini_elsewhere) mt_label("fini_after_migration");
+  if (fini_elsewhere) mt_label("fini_after_migration"); if (n_reinit) mt_label("redundant_init_while_running");
   mt_nontrivial(ncyc >= 2 && (fini_elsewhere > 0 || kinds[3] > 0));
 }
